@@ -159,6 +159,8 @@ CLAIMS["C02"] = (CLAIMS["C02"][0], CLAIMS["C02"][1] + " Added: n-coherence steps
 BR = ("BOUNDED addition rcheck/roaring (labelled bounded, never counted as proved): model-based execution of the real Bitmap API against a set model over 15 construction flavours (slice/B-tree, optimized, mapped, frozen, cloned, imported, official-decoded ...) and boundary-heavy container keys/contents: every read, 24 set operations over all 9 container-type pairs, random mutation histories with all reads re-compared after each step, isolation of derived values, encode/decode round trips incl. a hand-written official-format encoder, op-log replay. ")
 for _k in ("C01", "C02", "C03", "C04", "C05"):
     CLAIMS[_k] = (CLAIMS[_k][0], CLAIMS[_k][1] + " " + BR, CLAIMS[_k][2], CLAIMS[_k][3] + " + bounded stand-in")
+CLAIMS["C05"] = (CLAIMS["C05"][0], CLAIMS["C05"][1] + " Also rcheck/fragment: after every sequence the fragment file (snapshot + op log) is decoded and compared with the in-memory bitmap.", CLAIMS["C05"][2], CLAIMS["C05"][3])
+CLAIMS["C06"] = (CLAIMS["C06"][0], CLAIMS["C06"][1] + " Added under contract: the cluster-message entry (API.ClusterMessage, getMessage, markResizeInstructionComplete) and 20 protobuf decoders (see C27). BOUNDED additions: rcheck/roaring (rejected imports leave the bitmap unchanged; truncated official data is rejected; panics of every decode path are recorded) and rcheck/wire (Unmarshal of empty, random, truncated and bit-flipped bytes for all 28 message types never panics).", CLAIMS["C06"][2], CLAIMS["C06"][3] + " + bounded stand-in")
 CLAIMS["C25"] = (CLAIMS["C25"][0], CLAIMS["C25"][1] + " BOUNDED addition rcheck/stores: the real boltdb attribute store (standalone and through SetRowAttrs/SetColumnAttrs) under random SetAttrs/SetBulkAttrs histories, caller-side mutation of passed and returned maps, reopen, Blocks/BlockData/IndexAttrDiff, against a map model.", CLAIMS["C25"][2], CLAIMS["C25"][3] + " + bounded stand-in")
 
 CLAIMS.update({
